@@ -272,7 +272,10 @@ def check_record(o, rec):
         return
     rs = strip_zeros(rd)
     prefix = T["X"] == X and T["nsig"] < len(rs) and rs.startswith(T["sig"])
-    if d <= ACC_MAX_UNITS:
+    # 2..3 units and cut short: same shape as a low digit generator whose digits end in zeros; the input shape decides the label
+    body = text[1:] if text.startswith("-") else text
+    leadzero = (not T["has_exp"]) and body.startswith("0.")
+    if d <= ACC_MAX_UNITS and not (prefix and leadzero):
         o.cnt("post.acc.p%02d" % p)
         o.violation(rec, "C16:dtostre-ecvt-accuracy", what + ": well formed but %d units of digit %d away from the correctly rounded %s" % (d, p, rtxt))
     elif prefix:
